@@ -33,7 +33,17 @@ def tree : Cfg := Cfg.ofTables Gen.preGate Gen.authAllow Code.normLoop Code.norm
 abbrev Srv := Server KS.Store
 abbrev Rep := Reply KS.Store Frame
 
-def disp : Dispatch KS.Store Frame := ksDispatch {} 1000
+/-- dispatch behind the gate as the driver instantiates it: PING and QUIT of `process_normal_command`
+    (name upper-cased, not trimmed), everything else the key-space machine on database 0 -/
+def disp : Dispatch KS.Store Frame := fun s c name args =>
+  let n := Code.normLoop name
+  if n = PING then
+    (s, match args with
+        | [] => .simple [80, 79, 78, 71]
+        | some a :: _ => .bulk a
+        | none :: _ => .int 5)
+  else if n = QUIT then (s, KS.ok)
+  else ksDispatch {} 1000 s c name args
 
 structure St where
   s : Srv := { password := none, conns := [], store := KS.emptyStore, subs := [], replicas := [], monitors := [] }
